@@ -31,6 +31,7 @@ RULE = ("call histories (one process per shard, 75-300 calls each) mixing anneal
         "reference call repeated at the end of every history. Non-trivial = call that reached the C kernel with >= 2 "
         "spins and >= 1 sweep; distinct = digest of (function, type, terms, kwargs)"
         ' Also: schedules of Fractions / numpy scalars / Decimals / big ints, reference accounting (sys.getrefcount of every argument object and list item before/after each kernel call), an interval-timer signal with a raising handler during long calls, boundary sizes 1..70 / 127..129 / 255..257, a leak probe, libFuzzer on the kernels, valgrind memcheck on a subset.')
+RULE += " Rounds 9-10: huge-sparse Matrix models (largest label around 2^15 / 2^16 / 2^17), a second kernel call on the same object after clear() + refill with another top label or cancel - refresh() - grow, a threads probe (4 threads x 36 seeded calls compared with the serial results)."
 TIERS = {"quick": {"shards": 8, "cases": 110, "timeout": 1500, "fuzz_jobs": 4, "fuzz_runs": 150000,
                    "valgrind_shards": 3, "valgrind_cases": 25},
          "thorough": {"shards": 16, "cases": 5000, "timeout": 6 * 3600, "valgrind_shards": 8, "valgrind_cases": 40,
